@@ -180,6 +180,7 @@ static void big_eval(uint64_t idx, void *ctx) {
         BEE_CHECK(b.buffer >= base && off <= S && cap <= S - off, "outside-storage", "[%s] ring %" PRIu64 ": granted [%" PRIu64 ",+%" PRIu64 ") leaves the storage", prog, S, off, cap);
         if (mn) BEE_CHECK(cap >= mn && cap <= n, "size-up-to", "[%s] acquire_up_to(%" PRIu64 ",%" PRIu64 ") granted %" PRIu64 " bytes", prog, mn, n, cap);
         else BEE_CHECK(cap == n, "size", "[%s] acquire(%" PRIu64 ") granted %" PRIu64 " bytes", prog, n, cap);
+        if (mn && idle && n <= S) BEE_CHECK(cap == n, "idle-up-to-short", "[%s] ring %" PRIu64 " with nothing outstanding: acquire_up_to granted only %" PRIu64 " bytes", prog, S, cap);
         BEE_CHECK(b.len == 0, "dest-invalid", "[%s] granted buffer has len %zu", prog, b.len);
         for (int k = first; k < nout; ++k)
             BEE_CHECK(off + cap <= out[k].off || out[k].off + out[k].len <= off, "overlap", "[%s] ring %" PRIu64 ": granted [%" PRIu64 ",+%" PRIu64 ") overlaps the unreleased buffer [%" PRIu64 ",+%" PRIu64 ")", prog, S,
